@@ -125,3 +125,21 @@ pub fn loop_iter(v: &[u8]) -> u32 {
     }
     s
 }
+
+// ---- controls for the helper inliner and for closure lifting ----
+
+fn canary_helper(v: &[u8], i: usize) -> u8 {
+    if i < v.len() {
+        v[i]
+    } else {
+        0
+    }
+}
+
+pub fn canary_caller(v: &[u8], i: usize) -> u8 {
+    canary_helper(v, i)
+}
+
+pub fn closure_cmp(limit: Option<(i32, i32)>, n: i32) -> bool {
+    limit.is_some_and(|(lo, hi)| n < lo || hi < n)
+}
